@@ -6,69 +6,13 @@ def terminal_cover_rule(chk, src):
     """construct_symbolic_ttno keeps, after every node, only the new table and hands the running coefficient vector on; after the root nothing
     consumes it.  A row cover leaves the coefficient in that vector (out-operator factor 1.0), a column cover absorbs it into the node.  So at a table
     with a single remaining column - which is what the root sees - the vertex cover chosen by _decompose_graph must be the column, for one or several
-    rows and for both matching algorithms.  Decided by an abstract run of _decompose_graph's cover selection with bipartite_vertex_cover run from its own
-    source on r x 1 tables (the sparse matrix and scipy's matching are replaced by list-based stand-ins)."""
-    from ..syminterp import SymInterp, Sym, OpenSym, Blob
-    SYMF, BM = "renormalizer/mps/symbolic_mpo.py", "renormalizer/lib/bipartite_matching/bipartite_matching.py"
+    rows and for both matching algorithms.  Decided by an abstract run of the whole of _decompose_graph on exact r x 1 tables (decompose_rules.graph_rule; bipartite_vertex_cover is run
+    from its own source, the sparse matrix and scipy's matching are replaced by exact stand-ins): no coefficient other than 1 may come back in the new factor vector."""
+    SYMF = "renormalizer/mps/symbolic_mpo.py"
     chk.rule("terminal-cover", "a table with one remaining column (the root of a TTNO) is covered by that column, so no coefficient is left in the discarded running vector", 6)
-    fi, bv = src.func(SYMF, "_decompose_graph"), src.func(BM, "bipartite_vertex_cover")
+    fi = src.func(SYMF, "_decompose_graph")
     tt = src.func("renormalizer/tn/symbolic_ttno.py", "construct_symbolic_ttno")
 
-    class Stop(Exception):
-        pass
-
-    class CSR(Sym):
-        def __init__(self, shape, rows):
-            super().__init__("non_red")
-            self.shape, self.rows = shape, rows
-            self.indices = [c for r in rows for c in r]
-            self.indptr = [0]
-            for r in rows:
-                self.indptr.append(self.indptr[-1] + len(r))
-
-        def tocsc(self):
-            t = CSR((self.shape[1], self.shape[0]), [[i for i, r in enumerate(self.rows) if c in r] for c in range(self.shape[1])])
-            t.shape = self.shape
-            return t
-
-        def tocsr(self):
-            return self
-
-    class Graph(Sym):
-        def __init__(self, adj):
-            super().__init__("graph")
-            self.adj, self.shape = adj, (len(adj), max([max(a, default=-1) for a in adj]) + 1)
-
-    class Coord(Sym):
-        def __init__(self, c):
-            super().__init__("coord")
-            self.c, self.shape = c, (len(c), 2)
-
-        def __getitem__(self, k):
-            return [x[k[1]] for x in self.c]
-
-    def csr_matrix(arg, **k):
-        _data, (ri, ci) = arg
-        adj = [[] for _ in range(max(ri) + 1)]
-        for a, b in zip(ri, ci):
-            adj[a].append(b)
-        return Graph(adj)
-
-    def matching(graph, perm_type=None):
-        # any maximum matching of the tiny graph (augmenting paths); match[v] = u or -1, as scipy's maximum_bipartite_matching(perm_type='row')
-        match = [-1] * graph.shape[1]
-
-        def aug(u, seen):
-            for v in graph.adj[u]:
-                if v not in seen:
-                    seen.add(v)
-                    if match[v] == -1 or aug(match[v], seen):
-                        match[v] = u
-                        return True
-            return False
-        for u in range(len(graph.adj)):
-            aug(u, set())
-        return match
     # premise: the running coefficient vector is not read after the loop over the nodes (otherwise a leftover coefficient may be legitimately consumed there)
     import ast
     loops = [n for n in tt.node.body if isinstance(n, ast.For) and any(isinstance(c, ast.Call) and getattr(c.func, "id", "") == "_construct_symbolic_mpo_one_site" for c in ast.walk(n))]
@@ -80,31 +24,8 @@ def terminal_cover_rule(chk, src):
     after = tt.node.body[tt.node.body.index(loops[0]) + 1:]
     consumed = vec is None or any(isinstance(x, ast.Name) and x.id == vec and isinstance(x.ctx, ast.Load) for st in after for x in ast.walk(st))
     chk.table("terminal_cover_premise", [f"{tt.where}: running coefficient vector `{vec}` " + ("is read after the node loop: the rule does not apply" if consumed else "is not read after the node loop")])
-    for algo in ("Hopcroft-Karp", "Hungarian"):
-        for r in (1, 2, 3):
-            if consumed:
-                chk.ob("terminal-cover", f"_decompose_graph[{r} x 1 table, {algo}]", True, fi.where, "leftover coefficients are consumed after the root", "n/a", line=fi.node.lineno)
-                continue
-            seen = []
-            it = SymInterp(src, None, {})
-
-            def nonzero(b, seen=seen):
-                seen.append([bool(x) for x in b])
-                if len(seen) == 2:
-                    raise Stop()
-                return ([i for i, x in enumerate(b) if x],)
-            npx = OpenSym("np", array=lambda x, **k: Coord(x) if x and isinstance(x[0], tuple) else list(x), ones=lambda n: [1] * n, nonzero=nonzero, amax=max)
-            it.builtins.update({"bipartite_vertex_cover": lambda bigraph, algo="Hopcroft-Karp", it=it: it.call_function(bv, [[list(x) for x in bigraph]], {"algo": algo}),
-                                "np": npx, "csr_matrix": csr_matrix, "maximum_bipartite_matching": matching})
-            try:
-                it.call_function(fi, [[f"row{j}" for j in range(r)], ["col0"], CSR((r, 1), [[0] for _ in range(r)]), Blob("in_ops"), Blob("factor"), Blob("primary_ops"), algo])
-            except Stop:
-                pass
-            ok = len(seen) == 2 and not any(seen[0]) and seen[1] == [True]
-            chk.ob("terminal-cover", f"_decompose_graph[{r} x 1 table, {algo}]", ok, fi.where, {"row cover": seen[0] if seen else None, "column cover": seen[1] if len(seen) > 1 else None},
-                   {"row cover": [False] * r, "column cover": [True]}, line=fi.node.lineno,
-                   detail=f"a {r} x 1 table covered through a row: the row's out-operator gets factor 1.0 and the coefficient stays in the running vector, which {tt.where} "
-                          "discards after the root - the tree operator then carries coefficient 1 for that term while the chain builder (sentinel column) stays exact")
+    from . import decompose_rules as DR
+    DR.graph_rule(chk, src, None, rule_terminal="terminal-cover", premise_consumed=consumed, where_tt=tt.where)
 
 
 def run(chk):
